@@ -64,6 +64,7 @@ func TestC26(t *testing.T) {
 	m.Gate("flips:length", M*32, "bit flips in the length field")
 	m.Gate("flips:padlen", M*8, "bit flips in the padding length")
 	m.Gate("flips:mac", M*8*12, "bit flips in the MAC/tag")
+	m.Gate("badpad_frames", M*4, "validly MACed frames with illegal padding_length in every mode")
 	m.Gate("oversized_length_frames", M*4, "declared packet_length > maxPacket delivered to every mode")
 	m.Gate("none_oversized_length", 8, "declared packet_length > maxPacket delivered to the none cipher")
 	for _, f := range pktFaults {
@@ -439,19 +440,22 @@ func c26Hostile(m *mon.M, p pair, modeIdx, round int, r *rand.Rand) {
 		m.Inconclusive("sshref writer: " + err.Error())
 		return
 	}
-	kind := round % 4 // 0,1: oversized; 2: small/boundary lengths; 3: random stream
+	// round mod 4: 0 oversized; 1 boundary lengths; 2 legal aligned length
+	// with an illegal padding_length (reaches the padding logic behind a
+	// valid MAC); 3 alternately oversized / fully random stream
+	kind := round % 4
 	var declared uint32
 	var body []byte
 	desc := ""
-	switch kind {
-	case 0, 1:
+	switch {
+	case kind == 0 || (kind == 3 && (round/4)%2 == 1):
 		declared = oversizeLens[(round/4*2+kind+modeIdx)%len(oversizeLens)]
 		if r.IntN(4) == 0 {
 			declared = maxPacket + 1 + uint32(r.IntN(64))
 		}
 		body = mon.Bytes(r, 16*(1+r.IntN(64))-4+4*r.IntN(2)) // 4+len multiple of 16 or not
 		desc = "oversized"
-	case 2:
+	case kind == 1:
 		declared = hostileLens[(round/4+modeIdx)%len(hostileLens)]
 		n := int(declared)
 		if declared >= maxPacket-16 {
@@ -469,11 +473,19 @@ func c26Hostile(m *mon.M, p pair, modeIdx, round int, r *rand.Rand) {
 			body[0] = byte(pv)
 		}
 		desc = "boundary"
-	case 3:
+	case kind == 2:
+		pl := r.IntN(41)
+		n := 1 + pl + md.MinPadding(pl)
+		declared = uint32(n)
+		body = mon.Bytes(r, n)
+		bad := []int{0, 1, 2, 3, n - 2, n - 1, n, n + 1, 255}
+		body[0] = byte(bad[(round/4+modeIdx)%len(bad)])
+		desc = "badpad"
+	default:
 		desc = "random"
 	}
 	frameStart := stream.Len()
-	if kind != 3 {
+	if desc != "random" {
 		// CBC can only encrypt whole blocks: extend the body (the declared
 		// length stays as chosen).
 		if strings.HasSuffix(p.cipher, "-cbc") {
@@ -519,8 +531,8 @@ func c26Hostile(m *mon.M, p pair, modeIdx, round int, r *rand.Rand) {
 		return x
 	}
 	m.Distinct(fmt.Sprintf("hostile %s %s", desc, cls))
-	switch kind {
-	case 0, 1:
+	switch desc {
+	case "oversized":
 		m.Count("oversized_length_frames", 1)
 		if rdErr == nil {
 			m.Violation("oversized-length-accepted:"+cls, wit())
@@ -534,10 +546,10 @@ func c26Hostile(m *mon.M, p pair, modeIdx, round int, r *rand.Rand) {
 		if rdErr != nil {
 			m.Count("oversized_rejected", 1)
 		}
-	case 2:
-		m.Count("boundary_length_frames", 1)
+	case "boundary", "badpad":
+		m.Count(desc+"_frames", 1)
 		if rdErr != nil {
-			m.Count("boundary_rejected", 1)
+			m.Count(desc+"_rejected", 1)
 			return
 		}
 		// accepted: must be exactly the framed payload
@@ -546,14 +558,14 @@ func c26Hostile(m *mon.M, p pair, modeIdx, round int, r *rand.Rand) {
 			m.Violation("malformed-frame-yields-unframed-payload:"+cls, wit())
 			return
 		}
-		m.Count("boundary_accepted_consistent", 1)
+		m.Count(desc+"_accepted_consistent", 1)
 		if body[0] < 4 {
 			m.Count("accepted_padding_lt4:"+cls, 1)
 		}
 		if !md.LegalPadding(len(out), int(body[0])) {
 			m.Count("accepted_illegal_alignment_or_padding:"+cls, 1)
 		}
-	case 3:
+	case "random":
 		m.Count("random_streams", 1)
 		if rdErr == nil {
 			m.Violation("random-stream-authenticated:"+cls, wit())
